@@ -63,9 +63,10 @@ type c18Impl struct {
 	PanicAtNs       int64          `json:"panicAtNs"`
 	Resumed         bool           `json:"resumed"`         // the panic site was called again, without panicking, after the last panic
 	ResumedWithinNs int64          `json:"resumedWithinNs"` // last panic → that call; -1 never (within the window)
-	OthersTicked    bool           `json:"othersTicked"`
-	Leaked          map[string]int `json:"leaked"`       // goroutines of the repository by class at Close+35s
-	LeakedDetail    map[string]int `json:"leakedDetail"` // the same by innermost function (diagnostic only)
+	OthersTicked    bool           `json:"othersTicked"`    // every other flow ticked during the cool-down period after the first AND after the last panic
+	PipelineDone    bool           `json:"pipelineDone"`    // a pipeline call that began after the last panic has returned
+	Leaked          map[string]int `json:"leaked"`          // goroutines of the repository by class at Close+35s
+	LeakedDetail    map[string]int `json:"leakedDetail"`    // the same by innermost function (diagnostic only)
 	SecondCloseErrs map[string]int `json:"secondCloseErrs"`
 	LeakedAfter2nd  map[string]int `json:"leakedAfter2nd"` // after a second Close + 12s (clean-up attempt)
 	BubbleEnded     bool           `json:"bubbleEnded"`    // every goroutine of the bubble ended and the child exited 0
@@ -107,6 +108,9 @@ func c18Fill(in c18Input) c18Input {
 		in.Ineligible = true
 	}
 	if in.PanicSite != "" {
+		if in.Work == 0 {
+			in.Work = 1 // every panic case also asks: does a later pipeline call still complete?
+		}
 		if in.PanicAtCall <= 0 {
 			in.PanicAtCall = 1
 		}
@@ -172,15 +176,35 @@ func c18Case(t *testing.T, in c18Input, ck func(c18Impl)) {
 			}
 			impl.OthersTicked = true
 			for _, s := range []string{c18SiteLog, c18SiteRecov, c18SiteGetter, c18SiteEvents} {
-				if s != in.PanicSite && pr.okInWindow(s) == 0 {
+				if f, l := pr.okInWindow(s); s != in.PanicSite && (f == 0 || l == 0) {
 					impl.OthersTicked = false
 				}
 			}
+			impl.PipelineDone = pr.pipelineDoneAfterLastPanic()
 		}
 	}
 	// no check-point (file write = blocking system call = scheduling point) between here and Close
 	impl.ClosedAtNs = int64(time.Since(pr.t0))
-	err := node.Plugin.Close()
+	var err error
+	if in.Scenario == "close" && in.CloseAtNs == 0 {
+		// start-up races: Close on this goroutine, nothing in between
+		err = node.Plugin.Close()
+	} else {
+		// anywhere else a Close that never returns must become a verdict: wait a bounded virtual time for it
+		done := make(chan error, 1)
+		go func() { done <- node.Plugin.Close() }()
+		select {
+		case err = <-done:
+		case <-time.After(60 * time.Second):
+			impl.CloseCalled = true
+			impl.CloseReturned = false
+			impl.Phase = "close-stuck"
+			impl.Leaked, impl.LeakedDetail = c18Goroutines()
+			impl.Note = "Close did not return within 60 virtual seconds"
+			ck(impl)
+			os.Exit(4)
+		}
+	}
 	impl.CloseCalled = true
 	impl.CloseReturned = true
 	impl.CloseTookNs = int64(time.Since(pr.t0)) - impl.ClosedAtNs
@@ -302,7 +326,7 @@ func c18RunChild(dir string, idx int, in c18Input) c18Impl {
 			impl.Note = "process died: " + c18FirstLine(text, "panic:")
 		case strings.Contains(text, "deadlock:"):
 			impl.Note = c18FirstLine(text, "deadlock:")
-		case impl.Phase != "done":
+		case impl.Phase != "done" && impl.Note == "":
 			impl.Note = "child ended early: " + c18FirstLine(text, "")
 		}
 	}
@@ -372,14 +396,22 @@ func c18Edge() []c18Input {
 		}
 	}
 	// a panic at every site; the plugin stays open long enough to see the flow resume
+	// … once and repeatedly (1…12 panics, one per tick of the flow): a containment that leaks something per panic
+	// (a worker, a slot, a lock) only shows after several
 	for _, site := range c18Sites {
-		out = append(out, c18Input{Scenario: "panic", PanicSite: site, PanicAtCall: 1, PanicCount: 1})
-		out = append(out, c18Input{Scenario: "panic", PanicSite: site, PanicAtCall: 3, PanicCount: 2})
+		for count := 1; count <= 12; count++ {
+			out = append(out, c18Input{Scenario: "panic", PanicSite: site, PanicAtCall: 1 + count%3, PanicCount: count})
+		}
 	}
 	// Close during the restart cool-down that follows a panic
 	for _, site := range c18Sites {
 		for _, at := range []int64{c18ms, c18s + 137*c18ms, 5 * c18s, 10*c18s - 1, 10 * c18s, 10*c18s + 1, 10*c18s + 500*c18ms} {
 			out = append(out, c18Input{Scenario: "panic-close", PanicSite: site, PanicAtCall: 2, PanicCount: 1, CloseAtNs: at})
+		}
+		// Close in the middle of / right after a series of panics
+		for _, count := range []int{4, 5, 6, 12} {
+			out = append(out, c18Input{Scenario: "panic-close", PanicSite: site, PanicAtCall: 1, PanicCount: count, CloseAtNs: int64(count)*c18Interval(site) + 137*c18ms})
+			out = append(out, c18Input{Scenario: "panic-close", PanicSite: site, PanicAtCall: 1, PanicCount: count, CloseAtNs: int64(count/2)*c18Interval(site) + 137*c18ms})
 		}
 	}
 	return out
@@ -422,14 +454,14 @@ func c18Gen(r *Rng) c18Input {
 		in.Scenario = "panic"
 		in.PanicSite = c18Sites[r.Intn(len(c18Sites))]
 		in.PanicAtCall = r.Range(1, 6)
-		in.PanicCount = r.Range(1, 3)
+		in.PanicCount = r.Range(1, 12)
 		in.Work = r.Intn(4)
 		in.LatencyNs = []int64{0, c18ms, 700 * c18ms}[r.Intn(3)]
 	default: // panic, Close inside / at the edge of / after the cool-down
 		in.Scenario = "panic-close"
 		in.PanicSite = c18Sites[r.Intn(len(c18Sites))]
 		in.PanicAtCall = r.Range(1, 4)
-		in.PanicCount = r.Range(1, 2)
+		in.PanicCount = r.Range(1, 8)
 		in.Work = r.Intn(4)
 		in.CloseAtNs = grid(12)
 		if r.Chance(30) {
